@@ -1,4 +1,5 @@
 mod bddops;
+mod cli;
 mod compile;
 #[cfg(feature = "frontend")]
 mod frontend;
@@ -25,6 +26,7 @@ fn main() {
         "frontend" => frontend::main(&args[2..]),
         "iter" => iter::main(&args[2..]),
         "ng" => ng::main(&args[2..]),
+        "cli" => cli::main(&args[2..]),
         "compile" => compile::main_compile(&args[2..]),
         "meta" => compile::main_meta(&args[2..]),
         "parse" => parse::main(&args[2..]),
